@@ -19,13 +19,14 @@ PY
   python3 - $D $W/_check.log $rc $P <<'PY'
 import json,sys,re
 d,log,rc,P=sys.argv[1:5]
-obl=[]
+obl=[]; verdicts={}
 for l in open(log):
-    m=re.search(r'^VIOLATION property=\S+ replay=\S+ obligation=(.*?) at ',l)
-    if m: obl.append(m.group(1))
+    m=re.search(r'^VIOLATION property=\S+ replay=\S+ obligation=(.*?) at \S+ \(([^)]*)\)',l)
+    if m:
+        obl.append(m.group(1)); verdicts[m.group(2)]=verdicts.get(m.group(2),0)+1
 p=d+'/meta.json'; m=json.load(open(p))
 if rc=='1' and obl:
-    m['detected_by']={"check":f"vcheck check --prop {P} --tier quick","exit":1,"failed_obligations":obl[:12],"n_failed":len(obl)}
+    m['detected_by']={"check":f"vcheck check --prop {P} --tier quick","exit":1,"failed_obligations":obl[:12],"n_failed":len(obl),"solver_verdicts":verdicts}
 elif rc=='0':
     m['detected_by']={"check":f"vcheck check --prop {P} --tier quick","exit":0,"missed":True}
 else:
